@@ -29,6 +29,10 @@ package task
 // error exactly when that count is non-zero.
 //@ func (m *Manager) transitionTasks(envId uid.ID, tasks Tasks, src string, event string, dest string, commonArgs controlcommands.PropertyMap) (err error)
 //@   property C02
+//   a transition with nothing to command succeeds at once: nothing is enqueued and no answer is waited for
+//@   ghostvar enq bool = false
+//@   on call (*controlcommands.CommandQueue).Enqueue : assert len(tasks) > 0 ; enq = true
+//@   ensures len(tasks) == 0 ==> err == nil && !enq
 //@   ghostvar multi bool = false
 //@   ghostvar nCrit int = 0
 //@   ghostvar lastCrit bool = false
